@@ -233,6 +233,8 @@ def children_are_direct(ctx):
 
 
 def run(ctx):
+    from .C07 import deferred_victim_is_the_selected_candidate
+    deferred_victim_is_the_selected_candidate(ctx)
     from .C12 import one_name_per_destination
     one_name_per_destination(ctx)
     from .C15 import cached_slot_types_agree
